@@ -49,6 +49,9 @@ enum Op {
     GetBaseTime(NowKind),
     GetUnlocked,
     Sleep(u64),
+    /// add_trusted_path on a FIFO (true = device A): whatever the outcome, a
+    /// failed registration must leave the base time and the trust set alone.
+    AddTrustedFifo(bool),
     /// Replace the first registered trusted path by a symlink to a fresh file
     /// on the OTHER device (a mount that moved): trust is per device, so what
     /// the path resolves to now must not be believed unless that device is
@@ -88,6 +91,8 @@ struct Obs {
     pseudo_fs_none: u64,
     path_swaps: u64,
     scans_with_moved_path: u64,
+    failed_registrations: u64,
+    fifo_registrations: u64,
 }
 
 struct World {
@@ -127,6 +132,20 @@ fn unlocked() -> Result<(u64, raffle::Voucher), Fail> {
     }
 }
 
+/// Records a successful registration: the module keeps ONE path per device
+/// (the most recently registered one replaces the previous one).
+fn register(w: &mut World, dev: u64, path: PathBuf, obs: &mut Obs) {
+    if let Some(i) = w.trusted_devs.iter().position(|d| *d == dev) {
+        w.trusted_paths[i] = path;
+    } else {
+        w.trusted_devs.push(dev);
+        w.trusted_paths.push(path);
+        if w.trusted_devs.len() == 2 {
+            obs.second_device_trusted += 1;
+        }
+    }
+}
+
 /// True if some registered path still resolves to a device that is trusted.
 fn usable_trusted_path(w: &World, trusted: &[u64]) -> bool {
     w.trusted_paths.iter().any(|p| ctime_ms(p).map(|(_, dev)| trusted.contains(&dev)).unwrap_or(false))
@@ -159,13 +178,7 @@ fn run_history(ops: &[Op], w: &mut World, obs: &mut Obs) -> Result<(), Fail> {
                     Ok(Err(e)) => return Err(Fail { sig: "add-trusted-failed".into(), what: step(format!("add_trusted_path failed on a writable path: {}", e)) }),
                     Ok(Ok(())) => {}
                 }
-                if !w.trusted_devs.contains(&dev) {
-                    w.trusted_devs.push(dev);
-                    w.trusted_paths.push(p);
-                    if w.trusted_devs.len() == 2 {
-                        obs.second_device_trusted += 1;
-                    }
-                }
+                register(w, dev, p, obs);
             }
             Op::Observe(k) | Op::MaybeObserve(k) => {
                 let p = w.path(k);
@@ -214,6 +227,33 @@ fn run_history(ops: &[Op], w: &mut World, obs: &mut Obs) -> Result<(), Fail> {
                 } else {
                     if let Err(pn) = catch(|| nfs_voucher::maybe_observe_file_time(&file)) {
                         return Err(Fail { sig: format!("panic:{}", panic_sig(&pn)), what: step(format!("maybe_observe_file_time panicked: {}", pn)) });
+                    }
+                }
+            }
+            Op::AddTrustedFifo(on_a) => {
+                let (dir, dev) = if on_a { (&w.dir_a, w.dev_a) } else { (&w.dir_b, w.dev_b) };
+                let p = dir.join("trusted.fifo");
+                if !p.exists() {
+                    let c = std::ffi::CString::new(p.to_string_lossy().as_bytes()).unwrap();
+                    if unsafe { libc::mkfifo(c.as_ptr(), 0o600) } != 0 {
+                        continue;
+                    }
+                }
+                registering = Some(dev);
+                candidates.push(p.clone());
+                match catch(|| nfs_voucher::add_trusted_path(p.clone())) {
+                    Err(pn) => return Err(Fail { sig: format!("panic:{}", panic_sig(&pn)), what: step(format!("add_trusted_path panicked: {}", pn)) }),
+                    Ok(Err(_)) => {
+                        // refused: nothing may have changed
+                        registering = None;
+                        obs.failed_registrations += 1;
+                        if !w.trusted_devs.contains(&dev) {
+                            // later calls must still treat the device as untrusted (checked by the usual rules)
+                        }
+                    }
+                    Ok(Ok(())) => {
+                        register(w, dev, p, obs);
+                        obs.fifo_registrations += 1;
                     }
                 }
             }
@@ -339,7 +379,11 @@ fn gen_ops(rng: &mut Rng) -> Vec<Op> {
             ops.push(Op::AddTrusted(a_first));
         }
         if Some(i) == second_at {
-            ops.push(Op::AddTrusted(!a_first));
+            ops.push(if rng.chance(1, 3) { Op::AddTrustedFifo(!a_first) } else { Op::AddTrusted(!a_first) });
+        }
+        if i + 1 == trust_at && rng.chance(1, 4) {
+            // a special file offered for registration before anything is trusted
+            ops.push(Op::AddTrustedFifo(!a_first));
         }
         let op = match rng.below(12) {
             0..=4 => Op::Observe(files[rng.usize_below(files.len())]),
@@ -437,6 +481,8 @@ pub fn run(ctx: &mut Ctx) {
             ctx.feature_n("nfs.calls_before_any_trust", obs.before_trust_calls);
             ctx.feature_n("nfs.second_device_trusted", obs.second_device_trusted);
             ctx.feature_n("nfs.trusted_path_swapped_to_other_device", obs.path_swaps);
+            ctx.feature_n("nfs.fifo_offered_for_registration_accepted", obs.fifo_registrations);
+            ctx.feature_n("nfs.fifo_offered_for_registration_refused", obs.failed_registrations);
             ctx.feature_n("nfs.refresh_failed_because_path_moved", obs.scans_with_moved_path);
             ctx.signature(mix(&[obs.base_moved.min(12), obs.untrusted_none.min(6), obs.old_trusted_no_move.min(3), obs.refreshed_by_get.min(3), obs.not_refreshed_by_get.min(3), obs.before_trust_calls.min(6), obs.second_device_trusted, obs.path_swaps.min(2), obs.scans_with_moved_path.min(2), (ops.len() / 8) as u64]));
             if idx < 3 {
